@@ -93,7 +93,7 @@ def merge_hashfiles(files):
     return int(subprocess.check_output([tool] + files).split()[0])
 
 
-def shrink_case(path, j, prop, budget=160):
+def shrink_case(path, j, prop, budget=160, repeat=False):
     """Delta debugging (ddmin) on the data bytes of a failing case, then byte simplification; every
     candidate is judged by replaying it through the driver.  Returns the path of the minimal case."""
     c = read_case(path)
@@ -103,14 +103,19 @@ def shrink_case(path, j, prop, budget=160):
     tmp = path + '.try'
     calls = [0]
 
+    env = san_env(j.replay_flavour)
+    if not repeat:
+        env = dict(env, VERIF_REPLAY_REPEAT='1')   # the failure reproduces at once: candidates are judged by one run each
+    deadline = time.time() + 240   # a candidate that passes is repeated by the driver for up to 15 s (history-dependent failures)
+
     def fails(d):
-        if calls[0] >= budget:
+        if calls[0] >= budget or time.time() > deadline:
             return False
         calls[0] += 1
         with open(tmp, 'w') as f:
             f.write('property: %s\ndriver: %s\ncampaign: %s\naux: %s\ndata: %s\nnote: shrinking candidate\n' % (prop, c.get('driver', ''), c.get('campaign', ''), c.get('aux', '0 0 0 0'), d.hex()))
         try:
-            r = subprocess.run([vbuild.binpath(j.replay_flavour, j.replay_bin), '--prop', prop, '--replay', tmp], stdout=subprocess.PIPE, stderr=subprocess.STDOUT, env=san_env(j.replay_flavour), cwd=VERIF, timeout=120)
+            r = subprocess.run([vbuild.binpath(j.replay_flavour, j.replay_bin), '--prop', prop, '--replay', tmp], stdout=subprocess.PIPE, stderr=subprocess.STDOUT, env=env, cwd=VERIF, timeout=120)
             return r.returncode != 0
         except subprocess.TimeoutExpired:
             return False
@@ -313,12 +318,14 @@ def run_property(prop, spec, tier, seed, replay=None):
             continue
         seen.add(path)
         confirmed = 0
+        needs_rep = False
         for _ in range(3):
             try:
                 r = subprocess.run([vbuild.binpath(j.replay_flavour, j.replay_bin), '--prop', prop, '--replay', path],
                                    stdout=subprocess.PIPE, stderr=subprocess.STDOUT, env=san_env(j.replay_flavour), cwd=VERIF, timeout=150)
                 if r.returncode != 0:
                     confirmed += 1
+                    needs_rep = needs_rep or b'(repetition ' in r.stdout
             except subprocess.TimeoutExpired:
                 confirmed += 1   # a replay that does not return reproduces a hang
         if confirmed == 0:
@@ -329,7 +336,7 @@ def run_property(prop, spec, tier, seed, replay=None):
             known_hits.append((path, hit[0][1]))
         else:
             if len(violations) < 2:
-                path = shrink_case(path, j, prop)   # minimal reproduction becomes the replay file
+                path = shrink_case(path, j, prop, repeat=needs_rep)   # minimal reproduction becomes the replay file
             violations.append((path, how))
 
     wall = time.time() - t0
